@@ -266,13 +266,19 @@ pub fn part(ctx: &mut Ctx) {
     let updates = ctx.scale(200_000u64, 5_000_000);
     let rounds = ctx.scale(2u64, 2);
     // the type list ends with the small type of the other parts; the stress grid is 12 x 6
-    let ntypes = payload::TYPE_NAMES.len() - 1;
+    let ntypes = 72;
     let mut i = 0u64;
     for round in 0..rounds {
         for ty in 0..ntypes {
             for flavor in 0..3u8 {
                 i += 1;
                 if !ctx.mine(i) {
+                    continue;
+                }
+                let align: usize = payload::TYPE_NAMES[ty].rsplit('a').next().unwrap().parse().unwrap();
+                if flavor != 0 && align > 8 && ctx.is_open_finding(crate::sut::OVERALIGNED) {
+                    // known-defective input: the blackboard refuses such a value type at creation
+                    ctx.count_excluded(crate::sut::OVERALIGNED);
                     continue;
                 }
                 let c = StressCase {
